@@ -17,8 +17,8 @@ def project(t):
 def correspondence(ctx):
     cases = S.cases_for(ctx, 15000, 300000, stress=True, exhaustive=False)
     def versions_of(fam, i):
-        if fam.startswith(("pushes", "long", "huge", "trunc", "many")):
-            return G.VERS
+        if fam.startswith(("pushes", "long", "huge", "trunc", "many", "idiom:", "well-known:")):
+            return G.VERS          # coin-specific idioms (alone, cut short, followed by a template): every coin sees every one
         if fam.startswith(("lead256", "nbhd", "tmpl", "mn-grid", "witness", "empty")):
             return G.BTC + [G.FORK[i % 6]]
         return [G.VERS[i % 8], G.VERS[(i * 7 + 3) % 8]]
